@@ -26,6 +26,9 @@ bug-compatible, of the string surgery in
     it builds, `Lemmas/FragParse.lean: cst_parse_spec` —; `Assertion.between` is written into the body
     by `asrtFromCst`)
 
+(`IfExpression` / `HasAttrExpression`: no deviation; the three / two sub-expressions are rendered inline or on their own
+line at the indentation read from the gap, the interstitial comments by `format_interstitial_trivia_with_separator`.)
+
 `NixList.multiline` is a `Bool`: `from_cst` always sets it, so `_auto_multiline` returns it (the
 inference branch is reachable only for lists built programmatically). `has_scope()` is false for
 everything `from_cst` builds in the fragment. Core Lean only.
